@@ -5,6 +5,7 @@ import Qv.Drv.C03
 import Qv.Drv.C05
 import Qv.Drv.C09
 import Qv.Drv.C12
+import Qv.Drv.C02
 /-! Line protocol: `<op> <json>` per line in, one JSON document per line out. -/
 open Lean
 
@@ -17,7 +18,9 @@ def handlers : List (String × (Json → Except String Json)) := [
   ("C05.tree", Qv.Drv.C05.tree),
   ("C09.ptrace", Qv.Drv.C09.ptraceJ),
   ("C09.permute", Qv.Drv.C09.permuteJ),
-  ("C12.result", Qv.Drv.C12.result)
+  ("C12.result", Qv.Drv.C12.result),
+  ("C02.dims", Qv.Drv.C02.dims),
+  ("C02.matmul", Qv.Drv.C02.matmul)
 ]
 
 def handle (line : String) : String :=
